@@ -40,11 +40,6 @@ theorem segStem_left (a b c d xj : Rat) : segStem a b c d xj xj = 0 := by
   unfold segStem; ring
 
 
-/-- the exact integral of the cubic over a range of width `w` starting `t` to the right of the left knot, in the Taylor/Horner
-    form of the pending repair C08-2: `w·(P(t) + w·(P'(t)/2 + w·(P''(t)/6·… )))` -/
-def segInteg (a b c d t w : Rat) : Rat :=
-  w * ((((a * t + b) * t + c) * t + d) + w * (((3 * a * t + 2 * b) * t + c) / 2 + w * ((3 * a * t + b) / 3 + w * a / 4)))
-
 /-- the Taylor form is the stem-function difference (`stem_shift_noop` generalised: any reference point of the antiderivative
     gives the same integral), so the repair is value-neutral over the rationals and every `integ_*` theorem carries over -/
 theorem segInteg_eq_stem (a b c d xj xl w : Rat) :
